@@ -465,7 +465,7 @@ def r6(ctx: Ctx) -> RuleReport:
             raise AnalysisError(f'R6: splitter expression not in the table: {norm(val)}')
         (rep.ok if verdict else rep.violation)(key, where, msg)
     if not found:
-        rep.violation('penman._lexer:lex: str input is not split into lines', fi.loc(),
+        rep.undecided('penman._lexer:lex: str input is not split into lines', fi.loc(),
                       'no assignment to the lines parameter under isinstance(lines, str): a string would be '
                       'iterated character by character or lexed as one line')
     # the (possibly re-bound) lines value is what reaches _lex
@@ -473,7 +473,7 @@ def r6(ctx: Ctx) -> RuleReport:
         if any(t.kind == 'func' and t.func.qualname == '_lex' for t in ts):
             a0 = call.args[0] if call.args else None
             rep.add(f'penman._lexer:lex: {norm(call)}', fi.loc(call),
-                    'ok' if isinstance(a0, ast.Name) and a0.id == p_lines else 'violation',
+                    'ok' if isinstance(a0, ast.Name) and a0.id == p_lines else 'undecided',
                     '' if isinstance(a0, ast.Name) and a0.id == p_lines else 'the split lines are not what is lexed')
     # open() calls on read paths: text mode, universal newlines
     for mod, qn in (('penman.codec', '_load'), ('penman.__main__', 'main')):
@@ -513,6 +513,23 @@ def _classify_splitter(ctx, fi, val: ast.AST, p: str):
                 if ok and isinstance(sep, str):
                     missing = sorted(UNIVERSAL - {sep})
                     return False, f'str.split({sep!r}) does not end lines at {missing}'
+            return None, ''
+        # <module-level compiled pattern>.split(s)
+        if attr == 'split' and isinstance(recv, ast.Name) and recv.id != p and len(val.args) >= 1 \
+                and isinstance(val.args[0], ast.Name) and val.args[0].id == p:
+            r = ctx.repo.resolve_name(fi.module, recv.id)
+            if r[0] == 'const':
+                cexpr = r[1].constants[r[2]]
+                if isinstance(cexpr, ast.Call) and dotted(cexpr.func) == 're.compile' and cexpr.args:
+                    ok, pat = try_fold(cexpr.args[0], {}, ctx.repo, r[1])
+                    if ok and isinstance(pat, str):
+                        from ..lexmodel import fold_flags
+                        fl = cexpr.args[1] if len(cexpr.args) > 1 else next((k.value for k in cexpr.keywords if k.arg == 'flags'), None)
+                        if len(val.args) > 1 or val.keywords:
+                            return False, 'split with maxsplit leaves later lines unsplit'
+                        good, msg = _terminators_of_regex(pat, fold_flags(fl))
+                        return (True, f'{recv.id}.split with pattern {pat!r} splits exactly at LF, CRLF, CR') if good else \
+                            (False, f'{recv.id} = re.compile({pat!r}): {msg}')
             return None, ''
         d = dotted(val.func)
         if d == 're.split' and len(val.args) >= 2 and isinstance(val.args[1], ast.Name) and val.args[1].id == p:
@@ -558,16 +575,28 @@ def r34(ctx: Ctx) -> RuleReport:
     if not rets:
         raise AnalysisError('quote has no return')
     json_seen = False
+    # (value expression, facts under which it is returned): conditional expressions are split into their arms
+    arms = []
     for r in rets:
-        v = single_def(ctx, q, r.value) if r.value is not None else None
-        key = f'penman.constant:quote: {norm(r)}'
-        facts = facts_at(cfg, IN, pm, r)
+        facts0 = facts_at(cfg, IN, pm, r)
+
+        def split(e, facts):
+            if isinstance(e, ast.IfExp):
+                from ..cfg import _split
+                split(e.body, facts | _split(e.test, True))
+                split(e.orelse, facts | _split(e.test, False))
+            else:
+                arms.append((r, e, facts))
+        split(single_def(ctx, q, r.value) if r.value is not None else ast.Constant(value=None), set(facts0))
+    for r, v, facts in arms:
+        v = single_def(ctx, q, v)
+        key = f'penman.constant:quote: returns {norm(v)[:60]}'
         if isinstance(v, ast.Constant) and isinstance(v.value, str):
-            none_guard = (f'{p} is None', True) in facts
+            none_guard = (f'{p} is None', True) in facts or (f'{p} is not None', False) in facts
             good = v.value == '""' and none_guard
             rep.oblige('None is quoted as the empty string constant ""', good,
                        '' if good else f'returns {v.value!r} ' + ('' if none_guard else 'outside the `is None` branch'),
-                       q.loc(r), key=key)
+                       q.loc(r), key=key, positive=(v.value != '""'))
             continue
         d = dotted(v.func) if isinstance(v, ast.Call) else None
         if d == 'json.dumps':
@@ -576,7 +605,7 @@ def r34(ctx: Ctx) -> RuleReport:
             arg_ok = len(v.args) == 1 and isinstance(arg, ast.Call) and isinstance(arg.func, ast.Name) \
                 and arg.func.id == 'str' and len(arg.args) == 1 and isinstance(arg.args[0], ast.Name) \
                 and arg.args[0].id == p and len(ctx.cg.local_assigns(q).get(p, [])) == 0
-            rep.oblige('quote(x) is json.dumps(str(x)) of the argument itself', arg_ok, norm(v), q.loc(r), key=key)
+            rep.oblige('quote(x) is json.dumps(str(x)) of the argument itself', arg_ok, norm(v), q.loc(r), key=key, positive=False)
             bad_kw = []
             for kw in v.keywords:
                 okk, val = try_fold(kw.value)
@@ -588,9 +617,9 @@ def r34(ctx: Ctx) -> RuleReport:
                        key=key + ' keywords')
             continue
         rep.oblige('every return of quote is "" (for None) or json.dumps(str(x))', False,
-                   f'returns {norm(r.value) if r.value is not None else None}', q.loc(r), key=key)
+                   f'returns {norm(v)[:60]}', q.loc(r), key=key, positive=False)
     if not json_seen:
-        rep.oblige('quote goes through json.dumps', False, 'no json.dumps(str(x)) return', q.loc(), key='quote uses json.dumps')
+        rep.oblige('quote goes through json.dumps', False, 'no json.dumps(str(x)) return', q.loc(), key='quote uses json.dumps', positive=False)
     # language facts (R8i)
     J = Lang.from_pattern(JSON_STR, 0, 'json.dumps(str)')
     lm = ctx.lex
@@ -616,9 +645,9 @@ def r34(ctx: Ctx) -> RuleReport:
     _check_evaluate(ctx, rep, ev)
     ty = repo.func('penman.constant', 'type')
     calls_eval = any(any(t.kind == 'func' and t.func.fq == ev.fq for t in ts) for _, ts in ctx.cg.calls_in(ty))
-    rep.oblige('type() derives the type from evaluate()', calls_eval, '', ty.loc(), key='type calls evaluate')
+    rep.oblige('type() derives the type from evaluate()', calls_eval, '', ty.loc(), key='type calls evaluate', positive=False)
     ok, tm = try_fold_typemap(ctx)
-    rep.oblige('the type map sends str/int/float/None to Symbol/Integer/Float/Null', ok, tm, CON, key='_typemap')
+    rep.oblige('the type map sends str/int/float/None to Symbol/Integer/Float/Null', ok, tm, CON, key='_typemap', positive=False)
     rep.assumptions += ['json.dumps(s) for a str s with default options emits: quote, then printable ASCII other than '
                         'quote/backslash, or \\" \\\\ \\b \\f \\n \\r \\t, or \\uXXXX with lower-case hex, then quote '
                         '(CPython json.encoder.ESCAPE_ASCII)',
@@ -629,7 +658,7 @@ def r34(ctx: Ctx) -> RuleReport:
 def _check_evaluate(ctx, rep, ev: FuncInfo):
     p = ev.positional[0]
     loads = [c for c, ts in ctx.cg.calls_in(ev) if any(t.kind == 'ext' and t.name == 'json.loads' for t in ts)]
-    rep.oblige('evaluate parses with json.loads', len(loads) >= 1, '', ev.loc(), key='evaluate uses json.loads')
+    rep.oblige('evaluate parses with json.loads', len(loads) >= 1, '', ev.loc(), key='evaluate uses json.loads', positive=False)
     cfg = CFG(ev.node)
     IN = cond_facts(cfg)
     pm = ctx.repo.parent_map(ev.node)
@@ -637,7 +666,7 @@ def _check_evaluate(ctx, rep, ev: FuncInfo):
         a0 = single_def(ctx, ev, c.args[0]) if c.args else None
         arg_ok = isinstance(a0, ast.Name) and a0.id == p
         rep.oblige('json.loads receives the constant text unchanged', arg_ok, norm(c), ev.loc(c),
-                   key=f'penman.constant:evaluate: {norm(c)} argument')
+                   key=f'penman.constant:evaluate: {norm(c)} argument', positive=False)
         kws = {k.arg: norm(k.value) for k in c.keywords}
         good = kws == {'parse_constant': 'str'}
         rep.oblige('json.loads hooks: parse_constant=str and nothing else (NaN/Infinity stay text; no float/int/object hooks)',
@@ -650,13 +679,14 @@ def _check_evaluate(ctx, rep, ev: FuncInfo):
             except SyntaxError:
                 continue
             if isinstance(e, ast.Compare) and len(e.ops) == 1 and isinstance(e.left, ast.Name) and e.left.id == p:
-                okv, vals = try_fold(e.comparators[0])
-                if okv and isinstance(vals, (tuple, list, set)):
+                okv, vals = try_fold(e.comparators[0], {}, ctx.repo, ev.module)
+                if okv and isinstance(vals, (tuple, list, set, frozenset)):
                     if (isinstance(e.ops[0], ast.NotIn) and pol) or (isinstance(e.ops[0], ast.In) and not pol):
                         guard = set(vals)
         need = {'true', 'false', 'null'}
         rep.oblige('the JSON literal names true/false/null never reach json.loads', guard is not None and need <= guard,
-                   f'guard set {sorted(guard) if guard else None}', ev.loc(c), key='penman.constant:evaluate: literal-name guard')
+                   f'guard set {sorted(guard) if guard else None}', ev.loc(c), key='penman.constant:evaluate: literal-name guard',
+                   positive=guard is not None)
         # inside try/except JSONDecodeError (or ValueError)
         handled = False
         n = c
@@ -670,7 +700,7 @@ def _check_evaluate(ctx, rep, ev: FuncInfo):
                         handled = True
             n = par
         rep.oblige('a JSON syntax error falls back to the symbol text', handled, '', ev.loc(c),
-                   key='penman.constant:evaluate: JSONDecodeError handled')
+                   key='penman.constant:evaluate: JSONDecodeError handled', positive=False)
     # final isinstance filter dominates every return of a loaded value
     filt = False
     for n in walk_local(ev.node):
@@ -684,33 +714,47 @@ def _check_evaluate(ctx, rep, ev: FuncInfo):
                 if 'bool' in src:
                     filt = False
     rep.oblige('values other than None/str/int/float are refused with ConstantError', filt, '', ev.loc(),
-               key='penman.constant:evaluate: isinstance filter')
-    # every returned value is the one variable that holds: the text itself, None, or the json.loads result
+               key='penman.constant:evaluate: isinstance filter', positive=False)
+    # every returned value is: the text itself, None, or what json.loads returned (through locals)
+    from ..resolve import view as _view
+    from ..cfg import def_value as _defv
+    vw = _view(ctx, ev)
     rets = [n for n in walk_local(ev.node) if isinstance(n, ast.Return)]
-    rnames = {norm(r.value) if r.value is not None else None for r in rets}
-    single_var = len(rnames) == 1 and all(r.value is not None and isinstance(r.value, ast.Name) for r in rets)
-    rep.oblige('evaluate returns one result variable on every path', single_var,
-               '' if single_var else f'returns {sorted(map(str, rnames))}: a value leaves evaluate without passing the final type filter / JSON parser',
-               ev.loc(), key='penman.constant:evaluate: single result variable')
-    if single_var:
-        rv = rets[0].value.id
-        srcs = []
-        for n in walk_local(ev.node):
-            if isinstance(n, (ast.Assign, ast.AnnAssign)) and rv in __import__('pv.cfg', fromlist=['assigned_names']).assigned_names(n) and getattr(n, 'value', None) is not None:
-                srcs.append(n.value)
-        ok_src = True
-        for v in srcs:
-            vv = single_def(ctx, ev, v)
-            if isinstance(vv, ast.Constant) and vv.value is None:
-                continue
-            if isinstance(vv, ast.Name) and vv.id == p:
-                continue
-            if isinstance(vv, ast.Call) and dotted(vv.func) == 'json.loads':
-                continue
-            ok_src = False
-        rep.oblige('the result is the text itself, None, or what json.loads returned', ok_src,
-                   '' if ok_src else f'other sources: {[norm(x)[:40] for x in srcs]}', ev.loc(),
-                   key='penman.constant:evaluate: result provenance')
+    bad_src = []
+
+    def ok_source(e, at, depth=0) -> bool:
+        if depth > 6:
+            return False
+        if e is None or (isinstance(e, ast.Constant) and e.value is None):
+            return True
+        if isinstance(e, ast.Call) and dotted(e.func) == 'json.loads':
+            return True
+        if isinstance(e, ast.IfExp):
+            return ok_source(e.body, at, depth + 1) and ok_source(e.orelse, at, depth + 1)
+        if isinstance(e, ast.Name):
+            if e.id == p and not ctx.cg.local_assigns(ev).get(p):
+                return True
+            try:
+                defs = vw.rd.get(vw.node_of(at), {}).get(e.id) or ()
+            except Exception:
+                return False
+            if not defs:
+                return False
+            for d in defs:
+                if d == vw.cfg.entry:
+                    if e.id != p:
+                        return False
+                    continue
+                dv = _defv(vw.cfg, d, e.id)
+                if dv is None or not ok_source(dv, vw.cfg.nodes[d].ast, depth + 1):
+                    return False
+            return True
+        return False
+    for r in rets:
+        if not ok_source(r.value, r):
+            bad_src.append(norm(r.value)[:40] if r.value is not None else 'None')
+    rep.oblige('every value evaluate returns is the text itself, None, or what json.loads returned', not bad_src,
+               '' if not bad_src else f'other sources: {bad_src}', ev.loc(), key='penman.constant:evaluate: result provenance', positive=False)
     conv = [n for n in walk_local(ev.node) if isinstance(n, ast.Call) and isinstance(n.func, ast.Name) and n.func.id in ('int', 'float', 'complex', 'eval')
             ]
     rep.oblige('numbers are recognised by the JSON number grammar only (no int()/float() on the text)', not conv,
